@@ -160,6 +160,7 @@ type Bucket struct {
 	base.Bucket
 	H      *Hooks
 	mu     sync.Mutex
+	delMu  sync.Mutex // serialises Delete's exists-then-delete adaptation
 	stores map[string]*DataStore
 }
 
@@ -370,6 +371,9 @@ func (d *DataStore) Delete(ctx context.Context, k string) error {
 		// Store-model adaptation: rosmar happily "deletes" a document that is already a tombstone, Couchbase Server
 		// answers key-not-found. Code under test relies on the latter (e.g. one-time session consumption), so the
 		// seam answers like the server. The check and the delete are not separated by a scheduling point.
+		// (and deletes are serialised, so that the pair is atomic in free-running executions as well)
+		d.b.delMu.Lock()
+		defer d.b.delMu.Unlock()
 		if exists, err := d.DataStore.Exists(ctx, k); err == nil && !exists {
 			return c.post(sgbucket.MissingError{Key: k})
 		}
